@@ -1168,3 +1168,122 @@ def c14(tier, seed):
     run.assumptions += SESSION_ASSUME
     shutil.rmtree(os.path.join(game.TRACES, "C14"), ignore_errors=True)
     run.finish()
+
+
+# --------------------------------------------------------------------------- C15
+
+def shuffle_game(n):
+    """(root fen, n legal plies) of a king shuffle that ends in the K v K position whose deep iterations are
+    cheap (8/8/8/4k3/8/8/4K3/8, either side to move), so that a deep search after it really recurses deep"""
+    a = ["e2e1", "e5e6", "e1e2", "e6e5"]          # from R, White to move, back to R
+    b = ["e5e6", "e2e1", "e6e5", "e1e2"]          # from R, Black to move, back to R
+    if n % 4 == 0:
+        return "8/8/8/4k3/8/8/4K3/8 w - - 0 1", [a[i % 4] for i in range(n)]
+    if n % 4 == 2:
+        return "8/8/4k3/8/8/8/8/4K3 w - - 0 1", ["e1e2", "e6e5"] + [a[i % 4] for i in range(n - 2)]
+    if n % 4 == 1:
+        return "8/8/8/4k3/8/8/8/4K3 w - - 0 1", ["e1e2"] + [b[i % 4] for i in range(n - 1)]
+    return "8/8/8/4k3/8/8/8/4K3 w - - 0 1", ["e1e2"] + [b[i % 4] for i in range(n - 3)] + ["e5e6", "e2e1"]
+
+
+MONSTERS = ["QQQQ3k/Q4QQ1/7Q/Q6Q/Q6Q/Q2Q3Q/Q4QQ1/KQQQ4 w - - 0 1", "QQQQQ2k/Q4QQQ/7Q/Q6Q/Q6Q/Q2Q3Q/Q4QQQ/KQQQQ3 w - - 0 1",
+            "rQrQQrQk/Q5Q1/Q1Q4Q/Q4Q1r/1Q4QK/1Q5Q/Q6Q/QnQQQQQQ w - - 0 1", "QQQQ3k/Q3QQQ1/Q6Q/Q6Q/Q6Q/Q2Q3Q/Q4Q1Q/KQQQQ2Q w - - 0 1",
+            "R6R/3Q4/1Q4Q1/4Q3/2Q4Q/Q4Q2/pp1Q4/kBNN1KB1 w - - 0 1"]
+
+
+@check("C15")
+def c15(tier, seed):
+    import random
+    import subprocess
+    run = core.Run("C15", tier, seed)
+    vh = prepare()
+    quick = tier == "quick"
+    rnd = random.Random(seed)
+    vhc = core.build_harness("checked")
+    checked = core.build_bin(True)
+    d = game.trace_dir("C15")
+    # (M) capacity arithmetic of every interface history
+    res = core.tlc_mc("Capacity", "mc/Capacity_fixed.cfg", workers=8, tag="c15-cap")
+    if res["violated"]:
+        raise core.ToolError("Capacity.tla (repaired arithmetic) violates %s" % res["violated"])
+    res["output"] = ""
+    run.add_mc(res, {"Cap": 512, "Limit": 400, "Margin": 64, "QMax": 47})
+    # (B1) the histories nearest to the capacity on the checked build of the real binary
+    sessions = []
+    for n in ([397, 398, 399] if quick else [300, 390, 396, 397, 398, 399, 400]):
+        for depth in ([1, 49, 50, 113, 255, 0] if quick else [1, 47, 48, 49, 50, 64, 112, 113, 114, 200, 254, 255, 0]):
+            go = "go infinite" if depth == 0 else "go depth %d" % depth
+            sroot, smoves = shuffle_game(n)
+            steps = [{"send": "position fen %s moves %s" % (sroot, " ".join(smoves))}, {"send": go}]
+            steps += ([{"sleep": 1.5}, {"send": "stop"}] if depth == 0 else []) + [{"waitbest": 20}, {"send": "isready"}, {"quit": True}]
+            sessions.append({"id": "long-%d-d%d" % (n, depth), "binary": checked, "steps": steps})
+    # a richer long game: K+R v K+r shuffles keep captures and checks in the tree
+    rr = "4k2r/8/8/8/8/8/8/R3K3 w - - 0 1"
+    cyc = ["a1a2", "h8h7", "a2a1", "h7h8"]
+    for n in ([398] if quick else [396, 398]):
+        for go in ["go depth 60", "go movetime 1500"]:
+            sessions.append({"id": "longrr-%d-%s" % (n, go.replace(" ", "")), "binary": checked, "steps": [
+                {"send": "position fen %s moves %s" % (rr, " ".join(cyc[i % 4] for i in range(n)))}, {"send": go}, {"sleep": 2.0}, {"send": "stop"},
+                {"waitbest": 20}, {"send": "isready"}, {"quit": True}]})
+    outs, n_ev = run_sessions(run, "C15", sessions, {"C14", "C15", "C06", "C07", "C08"}, "capacity", par=8)
+    # (B2) self-play on the checked build: every search ended by the hook after N polls
+    sp = []
+    for k, polls in enumerate([0, 2, 60, 400] if quick else [0, 1, 2, 5, 30, 60, 200, 400, 1500, 5000]):
+        env = dict(os.environ, VERIF_STOP_AFTER=str(polls))
+        try:
+            p = subprocess.run([checked, "auto", "100000000"], capture_output=True, text=True, timeout=240, env=env)
+            rc, err, out = p.returncode, p.stderr, p.stdout
+            hung = False
+        except subprocess.TimeoutExpired as ex:
+            rc, err, out, hung = -999, (ex.stderr or b"").decode(errors="replace") if isinstance(ex.stderr, bytes) else (ex.stderr or ""), "", True
+        plies = out.count("Hash: ") - 1
+        sp.append({"ev": "selfplay", "polls": polls, "rc": rc, "hung": hung, "plies": plies,
+                   "panic": ("panicked" in err) or rc not in (0,), "msg": " | ".join(l for l in err.splitlines() if "panicked" in l or "assert" in l)[:300]})
+    spf = os.path.join(d, "selfplay.ndjson")
+    open(spf, "w").write("\n".join(json.dumps(e) for e in sp) + "\n")
+    # (B3) maximal-mobility boards: hill-climbing over accepted FENs, on the checked harness
+    mob = []
+    for material in (1, 0):
+        for k in range(2 if quick else 8):
+            out = os.path.join(d, "mob-%d-%d.ndjson" % (material, k))
+            p = core.sh([vhc, "mobility", "--seed", str(seed * 10 + k), "--iters", "15000" if quick else "120000", "--material", str(material),
+                         "--restarts", "2", "--out", out], check=False, timeout=1200)
+            if p.returncode != 0:
+                open(out, "a").write(json.dumps({"ev": "panic", "msg": "mobility driver died rc=%d %s" % (p.returncode, p.stderr[-300:]), "root": "mobility"}) + "\n")
+            mob.append((out, "vh(checked) mobility --material %d --seed %d" % (material, seed * 10 + k)))
+    # known monster boards must be refused (or stay within the buffer)
+    mf = os.path.join(d, "monsters.fens")
+    open(mf, "w").write("\n".join(MONSTERS) + "\n")
+    mo = os.path.join(d, "monsters.ndjson")
+    core.sh([vhc, "fens", "--fens", mf, "--out", mo, "--succ", "0"], check=False, timeout=300)
+    # (B4) the rules-layer and search drivers once on the checked harness (index / range assertions live)
+    pj = game.play_traces(run, vhc, "C15", 6 if quick else 28, 3 if quick else 8, 60 if quick else 150, 2, seed)
+    fams = families(run, [("PROMO", 200 if quick else 20), ("EP", 4000 if quick else 400), ("CASTLE", 300 if quick else 30)], seed, "C15")
+    fj = game.family_traces(run, vhc, "C15", fams)
+    game.judge_traces(run, pj + fj + mob + [(mo, "vh(checked) fens monsters")], {"C15"})
+    # self-play outcome judged here (a crash is a crash): a panic or a hang is the violation
+    for e in sp:
+        run.cov["evaluations"] += 1
+        if e["panic"] or e["hung"]:
+            run.violation({"p": "C15", "w": "self-play on the checked build crashed or hung", "d": e},
+                          {"driver": "selfplay", "cmd": "VERIF_STOP_AFTER=%d %s auto 100000000" % (e["polls"], checked)})
+    flat, games = srch.game_positions(vh, "C15", seed, 3, 40, 8)
+    hs = [[srch.step(srch.KVK, [], limit=255, watch_ms=20000)], [srch.step(srch.KVK, [], limit=None, watch_ms=20000)],
+          [srch.step(srch.KPK, [], limit=None, watch_ms=4000)], [srch.step("startpos", [], limit=4)]]
+    hs += [[srch.step(f, p, limit=3)] for f, p in flat[:10 if quick else 60]]
+    srch.run_histories(run, vh, "C15", hs, {"C15"}, "checkedsearch", profile_vh=vhc)
+    run.cov["evaluations"] += len(sessions) + len(hs) + sum(1 for _ in open(mo))
+    run.cov["distinct_nontrivial"] = len(sessions) + len(hs) + len(sp) + len(mob)
+    run.cov["self_play"] = sp
+    run.cov["mobility_best"] = [json.loads(l).get("n") for o, _ in mob for l in open(o) if '"mob"' in l]
+    run.sample({"session": sessions[0]["id"], "steps": [sessions[0]["steps"][0]["send"][:120] + " ...", sessions[0]["steps"][1]]})
+    run.sample({"self_play": sp[0]})
+    run.cov["rule"] = ("histories nearest to each capacity, from the arithmetic of Capacity.tla: games of 397-400 plies through `position ... moves` "
+                       "followed by go depth d for d around every boundary and go infinite; self-play to the end with every search cut after N polls; "
+                       "hill-climbing over FEN-acceptable boards maximising the generated-move count; the rules-layer and search drivers; all on "
+                       "builds with debug assertions, unsafe-precondition checks and overflow checks on, so an out-of-range access panics; "
+                       "non-trivial = reaches within 64 entries of a capacity or runs > 50 plies")
+    run.assumptions += ["that an access is out of range is observed by Rust's own checks in the checked build; an access on a path no driver reaches is missed",
+                        "arithmetic-overflow panics of the checked build that are not index or capacity failures are reported as notes, not as C15 violations"]
+    shutil.rmtree(d, ignore_errors=True)
+    run.finish()
